@@ -1,3 +1,13 @@
 import NimaVerif.Props.C01
-open Nima.C01
-#print axioms formatTrivia_nil
+#print axioms Nima.C01.formatTrivia_newline_terminated
+#print axioms Nima.C01.formatTrivia_newline_terminated_all
+#print axioms Nima.C01.formatTrivia_empty_iff
+#print axioms Nima.C01.formatTrivia_comment_closed
+#print axioms Nima.C01.comment_rendering_open
+#print axioms Nima.C01.trailing_extends
+#print axioms Nima.C01.trailing_last_is_comment
+#print axioms Nima.C01.trailing_last_is_layout
+#print axioms Nima.C01.trailing_open_comment_iff
+#print axioms Nima.C01.trailing_open_ends_with_comment
+#print axioms Nima.C01.trailing_closed_otherwise
+#print axioms Nima.C01.cex_trailing_comment_left_open
